@@ -74,7 +74,7 @@ def _gen_module(rng, name, cfg, others):
 
 def generate(rng, opts):
     cfg = {"p_path": rng.choice([0.0, 0.5, 1.0]), "p_ext": rng.choice([0.0, 0.4, 0.8]), "compiled": rng.random() < 0.6, "stubs": rng.random() < 0.3}
-    names = [PK] + [f"{PK}.{m}" for m in rng.sample(["a", "b", "c"], rng.choice([0, 1, 2, 3]))]
+    names = [PK] + [f"{PK}.{m}" for m in rng.sample(["a", "b", "c", "json", "types"], rng.choice([0, 1, 2, 3]))]
     if rng.random() < 0.4:
         names += [f"{PK}.sub", f"{PK}.sub.d"]
     modules = {}
@@ -88,7 +88,9 @@ def generate(rng, opts):
     compiled = []
     if cfg["compiled"]:
         for form in rng.sample(["so", "abi3", "pyd", "pyc"], rng.choice([1, 2, 3])):
-            compiled.append({"parent": rng.choice([PK] + ([f"{PK}.sub"] if f"{PK}.sub" in modules else [])), "name": "z" + form, "form": form})
+            # bare names that collide with modules the interpreter has already imported are legal sub-module names
+            name = rng.choice(["z" + form, "z" + form, "math", "types", "_json", "abc", "sys", "os"])
+            compiled.append({"parent": rng.choice([PK] + ([f"{PK}.sub"] if f"{PK}.sub" in modules else [])), "name": name, "form": form})
     stubs = [n for n in names if cfg["stubs"] and rng.random() < 0.5]
     ops = []
     for _ in range(rng.choice([1, 2, 2, 3, 4])):
